@@ -363,7 +363,7 @@ def e2e(ctx, rng, gs, n_reps):
         f = rng.normal(size=(nf, n)) * 3
         miss = rng.random(size=f.shape) < 0.3
         miss[:, 0] = False
-        how = ["masked", "nan", "no_data"][int(rng.integers(3))]
+        how = ["masked", "nan", "no_data", "no_data"][rep % 4]       # cycled: every form occurs in every run
         edges = gen_edges(rng, int(rng.integers(2, 5)), first_zero=True)
         est = "matheron" if rng.random() < 0.5 else "cressie"
         kw = {}
@@ -372,8 +372,14 @@ def e2e(ctx, rng, gs, n_reps):
         elif how == "nan":
             inp = np.where(miss, np.nan, f)
         else:
-            inp = np.where(miss, -999.0, f)
-            kw["no_data"] = -999.0
+            nd = [-999.0, -999.9, 1e20][(rep // 4) % 3]
+            if rep % 4 == 3:
+                # single-precision data with a marker that is not representable in that precision: still "no data"
+                f = f.astype(np.float32).astype(np.double)
+                inp = np.where(miss, nd, f).astype(np.float32)
+            else:
+                inp = np.where(miss, nd, f)
+            kw["no_data"] = nd
         ctx.count(("e2e-multifield-missing", dim, n, nf, how, est), hist=dict(entry="vario_estimate-multifield", how=how))
         _, g, c = gs.vario_estimate(tuple(pos), inp, edges, estimator=est, return_counts=True, **kw)
         keep = ~miss.all(axis=0)
@@ -455,6 +461,43 @@ def e2e(ctx, rng, gs, n_reps):
                           "a row of the multi-direction estimate differs from enumerating the pairs of that direction",
                           dict(entry="vario_estimate", est=est, tol=tol, bw=bw, style=style, arrays=describe(f, edges, pos, dirs),
                                expected_counts=bcnt.tolist(), got_counts=c.tolist()), key="vario_estimate:direction-set")
+    # lattice point sets (grids, transects): pairs EXACTLY perpendicular / parallel to an axis-aligned direction, tolerances at the
+    # ends of the documented range (pi/2 exactly: a perpendicular pair is NOT inside the strict sector), exact bandwidth ties
+    for rep in range(4 * n_reps):
+        dim = int(rng.integers(2, 4))
+        shape = tuple(int(x) for x in rng.integers(2, 5, size=dim))
+        grid = np.array(np.meshgrid(*[np.arange(k, dtype=float) for k in shape], indexing="ij")).reshape(dim, -1)
+        if rng.random() < 0.4:
+            grid = grid[:, rng.random(size=grid.shape[1]) < 0.8]
+        n = grid.shape[1]
+        if n < 3:
+            continue
+        nf = int(rng.integers(1, 3))
+        f = rng.normal(size=(nf, n))
+        edges = np.array([0.0, 0.5, 1.5, 2.5, 10.0]) if rng.random() < 0.5 else np.array([0.5, 1.0, 2.0, 3.0, 9.0])
+        est = "matheron" if rng.random() < 0.6 else "cressie"
+        nd = int(rng.integers(1, dim + 1))
+        axes = rng.permutation(dim)[:nd]
+        unit = np.eye(dim)[axes] * rng.choice([1.0, -1.0], size=(nd, 1))
+        dirs = unit * rng.choice([1.0, 2.0, 0.5], size=(nd, 1))
+        tol = [np.pi / 2, np.pi / 4, np.pi / 8, 1.0][int(rng.integers(4))]
+        bw = [None, None, 1.0, 2.0, 0.75][int(rng.integers(5))]
+        ctx.count(("e2e-lattice", dim, nd, est, round(tol, 3), bw), hist=dict(entry="vario_estimate-lattice", dim=dim, nd=nd, tol=round(tol, 4)))
+        case = dict(entry="vario_estimate", est=est, tol=tol, bw=bw, style="lattice", arrays=describe(f, edges, grid, dirs))
+        try:
+            _, g, c = gs.vario_estimate(tuple(grid), f if nf > 1 else f[0], edges, estimator=est, direction=dirs,
+                                        angles_tol=tol, bandwidth=bw, return_counts=True)
+        except Exception as e:
+            ctx.violation("probe: vario_estimate on a lattice raised", repr(e), case, key="vario_estimate:dirs-exception")
+            continue
+        g = np.atleast_2d(g); c = np.atleast_2d(c)
+        bg, bcnt = brute_unstructured(f, edges, grid, est[0], direction=unit, tol=tol, bw=-1.0 if bw is None else bw, separate=False)
+        # axis-aligned unit directions on integer coordinates: every scalar product, distance and band distance is exact or an
+        # identically rounded square root on both sides, so exact ties are decided identically
+        if not ((bcnt == c).all() and rel_close(bg, g)):
+            ctx.violation("probe: vario_estimate on a lattice (exact perpendicular/parallel pairs) vs pair enumeration",
+                          "a row of the directional estimate differs from enumerating the pairs of that direction",
+                          dict(case, expected_counts=bcnt.tolist(), got_counts=c.tolist()), key="vario_estimate:lattice")
     # great-circle distance: explicit bins in any length unit (geo_scale) and the documented default bins
     # (Sturges bin count, a third of the great-circle bounding-box diameter) must give the pair enumeration
     for rep in range(6 * n_reps):
